@@ -472,6 +472,38 @@ def _run_seq(job):
     return row
 
 
+def _run_vseq(job):
+    """One interpreter, one key and message: Verify on the canonical signature and on wrong ones, interleaved and
+    repeated (the verdict on a string must not depend on what was verified before)."""
+    idx, seed = job
+    _init_worker()
+    rng = random.Random(seed)
+    ob, g2p = _W["ob"], _W["g2p"]
+    r = ob.curve_order
+    sname = ("basic", "aug", "pop")[idx % 3]
+    S = _W["suites"][sname]
+    row = {"op": "vseq", "suite": sname, "calls": [], "raised": 0}
+    try:
+        sk = [1, r - 1, rng.randrange(2, r - 1), rng.randrange(2, r - 1)][idx % 4]
+        m = rng.randbytes(rng.choice([0, 1, 32, 100]))
+        pk = S.SkToPk(sk)
+        sig = S.Sign(sk, m)
+        pt = g2p.signature_to_G2(sig)
+        cands = {"canonical": sig, "negated": g2p.G2_to_signature(ob.neg(pt)), "identity": g2p.G2_to_signature(ob.Z2),
+                 "other_message": S.Sign(sk, m + b"x"), "other_key": S.Sign(sk % (r - 2) + 1, m),
+                 "doubled": g2p.G2_to_signature(ob.double(pt))}
+        order = ["canonical", "negated", "canonical", "canonical", "canonical", "identity", "negated", "canonical",
+                 "other_message", "doubled", "canonical", "other_key", "negated", "canonical"]
+        if idx % 2:
+            order = ["negated", "canonical", "negated"] + order
+        for kind in order:
+            res = S.Verify(pk, m, cands[kind])
+            row["calls"].append({"kind": kind, "got": 1 if res is True else 0})
+    except Exception as e:  # noqa: BLE001
+        row["exc"] = f"EXC:{type(e).__name__}:{e}"[:120]
+    return row
+
+
 def _band_search(rng, cls, suite, want_top=True):
     """Input generation only: a valid secret key (and message) for which a coordinate of the public key
     ("bandpk") or of the signature point ("bandsig", basic / pop suite) lies in a boundary band of the 381-bit
@@ -771,6 +803,7 @@ def run(ctx: Ctx, focus):
                     "note": "chain_cancel_identity_sig"}]
             chains.append((10 ** 6 + 100 * rep, ctx.seed * 31 + rep, ch))
     sk_jobs, kg_jobs, agg_jobs, seq_jobs = [], [], [], []
+    vseq_jobs = [(i, ctx.seed + 16000 + i) for i in range(4 if quick else 24)] if focus == "C02" else []
     if focus == "C01":
         reps = 1 if quick else 6
         k = 0
@@ -812,8 +845,9 @@ def run(ctx: Ctx, focus):
         r_kg = pool.map_async(Guarded(_run_keygen), kg_jobs, chunksize=1)
         r_ag = pool.map_async(Guarded(_run_agg), agg_jobs, chunksize=1)
         r_sq = pool.map_async(Guarded(_run_seq), seq_jobs, chunksize=1)
+        r_vs = pool.map_async(Guarded(_run_vseq), vseq_jobs, chunksize=1)
         r_ch = pool.map_async(Guarded(_run_chain), chains, chunksize=1)
-        rows_run, rows_sk, rows_kg, rows_ag = r_run.get(), r_sk.get() + r_sq.get(), r_kg.get(), r_ag.get()
+        rows_run, rows_sk, rows_kg, rows_ag = r_run.get(), r_sk.get() + r_sq.get() + r_vs.get(), r_kg.get(), r_ag.get()
         rows_run = rows_run + [r for ch in r_ch.get() for r in ch]
     # (B) spec -> code: the returned boolean must be the one TLC predicted for the enumerated scenario
     nb = 0
